@@ -13,12 +13,14 @@ class PArg:
         s.name = e.get('name'); s.type = e.get('type'); s.interface = e.get('interface')
         s.enum = e.get('enum'); s.allow_null = e.get('allow-null') == 'true'
     def key(s): return (s.name, s.type, s.interface, s.enum, s.allow_null)
+    def skey(s): return (s.name, s.type, s.interface, s.allow_null)
 class PMsg:
     def __init__(s, e):
         s.name = e.get('name'); s.is_event = e.tag == 'event'
         s.args = [PArg(a) for a in e if a.tag == 'arg']
         s.destructor = e.get('type') == 'destructor'
     def key(s): return (s.name, s.is_event, tuple(a.key() for a in s.args))
+    def skey(s): return (s.name, s.is_event, tuple(a.skey() for a in s.args))
 class PEnum:
     def __init__(s, e):
         s.name = e.get('name'); s.bitfield = e.get('bitfield', 'false') == 'true'
@@ -53,4 +55,15 @@ def winners(descs):
         mx = max(i.version for i in l)
         c = [i for i in l if i.version == mx]
         out[n] = (c, len({i.key() for i in c}) == 1)
+    return out
+
+
+def structural(descs):
+    """name -> (one maximal-version description, [messages whose structure (argument names, types,
+    interfaces, nullability - not the enum tags) is the same in every maximal-version description])"""
+    out = {}
+    for n, (cands, _) in winners(descs).items():
+        keys = [set(m.skey() for m in c.msgs) for c in cands]
+        common = set.intersection(*keys)
+        out[n] = (cands[0], [m for m in cands[0].msgs if m.skey() in common])
     return out
